@@ -177,7 +177,7 @@ def _hist(c, stats):
         c.cov["samples"].append({"root": cases[len(cases) // 3]["root"], "history": _brief(cases[len(cases) // 3]["h"])})
     _replay_and_validate(c, cases, "hist", stats)
 
-    n_sim = c.q(60, 300)
+    n_sim = c.q(40, 300)
     sdepth = c.q(5, 6)
     cfgt = open(c.spec + "/MC_C16_hist.cfg").read().replace("Depth = 3", f"Depth = {sdepth}").replace("INVARIANT Export", "INVARIANT ExportAny")
     open(c.spec + "/MC_C16_sim.cfg", "w").write(cfgt)
